@@ -121,6 +121,15 @@ def run_case(case, ctx):
         rng = random.Random(case['seed'])
         nasfactory.randomize_nas_params(M['nas'], random.Random(case['seed']))
         nasfactory.randomize_nas_params(T['nas'], random.Random(case['seed']))
+        # mixed training flags (e.g. BatchNorm statistics frozen during a train-mode search):
+        # observers must preserve the flag of every sub-module, not only the global mode
+        if case['cfg']['train'] and case['seed'] % 2 == 0:
+            for m in (M, T):
+                frng = random.Random(case['seed'] + 99)
+                for n_, sub in m['nas'].named_modules():
+                    if n_ and (isinstance(sub, (torch.nn.BatchNorm1d, torch.nn.BatchNorm2d,
+                                                 torch.nn.Dropout)) or frng.random() < 0.15):
+                        sub.training = False
         # same warm-up forward on both
         for m in (M, T):
             torch.manual_seed(5)
